@@ -256,14 +256,14 @@ pub fn is_valid_identifier(name: &str) -> bool {
 }
 
 fn name_needs_quoting(name: &str) -> bool {
-    let chars = name.chars();
-    // it contains any of these characters: ()'$,;-+{} or space
-    for (i, char) in chars.enumerate() {
-        if [' ', '(', ')', '\'', '$', ',', ';', '-', '+', '{', '}'].contains(&char) {
+    // Unquoted, a sheet name is read by the lexer as an identifier: it has to start with a letter or `_`
+    // and contain only alphanumeric characters, `_` and `.`. Anything else (spaces, operators, `!`, `'`,
+    // a leading digit or dot, symbols ...) needs the quotes.
+    for (i, char) in name.chars().enumerate() {
+        if i == 0 && !(char.is_alphabetic() || char == '_') {
             return true;
         }
-        // if it starts with a number
-        if i == 0 && char.is_ascii_digit() {
+        if !(char.is_alphanumeric() || char == '_' || char == '.') {
             return true;
         }
     }
